@@ -305,6 +305,7 @@ func (ex *Exec) enterLoop(fr *Frame, h *ssa.BasicBlock, in *State) *State {
 		}
 	}
 	fr.headNew[ord] = ex.nextObj
+	ex.heapOlder(st)
 	r := Fresh("inloop", SBool)
 	ex.fact(nil, Implies(r, in.reach))
 	st.reach = r
